@@ -11,6 +11,16 @@ def queries(tier):
     qs.append(Query("memreader_step_N%d" % n, "C12_memreader.cpp", "h_step", {"N": n}, unwind=n + 2,
                     desc="one arbitrary operation {Read,ReadPartial,SeekForward,SeekBackward,Seek,Peek,SeekBeginning/End} with a free 64-bit argument "
                          "from an arbitrary valid MemoryReader state over %d symbolic bytes" % n))
+    fs = 6 if tier == "quick" else 10
+    qs.append(Query("fileslice_step_F%d" % fs, "C12_fileslice.cpp", "h_step", {"FSIZE": fs}, unwind=fs + 3, vfs_cap=16,
+                    desc="one arbitrary operation with a free 64-bit argument on a SliceReader<FileReader> with symbolic slice offset/length/position "
+                         "over a %d-byte symbolic file; afterwards position, length and the remaining bytes must be those of the reference cursor" % fs))
+    ops = ["Read<uint8_t>(vector<uint8_t>)", "Read<int8_t>(vector<uint16_t>)", "Read<uint32_t>(string)", "Read<int32_t>(vector<uint32_t>)",
+           "Read(uint32_t&)", "ReadNullTerminatedString(maxCount)"]
+    for i, o in enumerate(ops):
+        ma = 24 if i == 2 else 64      # std::string growth (SSO -> heap with a symbolic length) is far costlier than vector growth
+        qs.append(Query("typed_op%d_N%d" % (i, n), "C12_typed.cpp", "h_typed", {"N": n, "OP": i}, unwind=ma + 6, max_alloc=ma,
+                        desc="%s at an arbitrary position of an arbitrary %d-byte MemoryReader: consumes exactly its encoded size, negative/unsatisfiable sizes refused" % (o, n)))
     return qs
 
 LEVEL_TEXT = ("Bounded model checking of the real reader code: one arbitrary operation with free 64-bit arguments from an arbitrary valid state "
